@@ -54,6 +54,7 @@ type Case struct {
 	Conns  int      `json:"conns,omitempty"`
 	Rounds int      `json:"rounds,omitempty"`
 	Idle   string   `json:"idle,omitempty"` // conc: inloop | poller
+	Setv   string   `json:"setv,omitempty"` // setter program applied after the first look: bytes | string | copy | ""
 }
 
 const mpBody = "--c09b\r\nContent-Disposition: form-data; name=\"fa\"\r\n\r\nmv\r\n--c09b\r\nContent-Disposition: form-data; name=\"upfile\"; filename=\"u.txt\"\r\nContent-Type: text/plain\r\n\r\nfile-content\r\n--c09b--\r\n"
@@ -96,25 +97,50 @@ type connState struct {
 	endings  []string
 	nmut     int
 	probe    string
+	setv     string
 	pending  *probeRec
 	probed   int
 	off      int // len(conn.Out) when the pending probe's handler started
 }
 
 type probeRec struct {
-	obj   int
-	dirty []string
+	obj    int
+	dirty  []string // components that differ at the first look
+	dirty2 []string // components that differ after the setter program
 }
 
 type cfgKey struct {
 	trace bool
 	idle  string
 	probe string
+	setv  string
 }
 
 type ref struct {
-	d    dump
+	d    dump // first look
+	d2   dump // after the setter program
 	wire string
+}
+
+// lookTwice is the probe proper: dump, exercise the locks, apply the setter program of the variant, dump again.
+// With a variant ending in "!" the program is applied BEFORE any look: the dump itself calls lazy and scratch-writing
+// getters (URI parse, cookie collection, Cookie()/FullURI() scratch buffers) that could hide what a setter finds.
+func lookTwice(c context.Context, ctx *app.RequestContext, setv, files string) (dump, dump) {
+	d := dump{}
+	if !strings.HasSuffix(setv, "!") {
+		d = dumpCtx(ctx)
+		probeLocks(ctx)
+	}
+	if setv == "" {
+		return d, dump{}
+	}
+	pan := applyProgram(strings.TrimSuffix(setv, "!"), "Ctx", &env{c: c, ctx: ctx, files: files})
+	if strings.HasSuffix(setv, "!") {
+		probeLocks(ctx)
+	}
+	d2 := dumpCtx(ctx)
+	d2.put("set.panic", pan)
+	return d, d2
 }
 
 // worker runs cases one after the other on one locked OS thread.
@@ -145,6 +171,7 @@ type run struct {
 	dead    int32      // set by the watchdog: the goroutine running this history is stuck, its events are dropped
 	phase   atomic.Value
 	refMode *ref // when set, the probe handler records the reference instead of diffing
+	refSetv string
 }
 
 func (r *run) emit(ev string, rec vtrace.Rec) {
@@ -158,15 +185,19 @@ func (r *run) emit(ev string, rec vtrace.Rec) {
 func (r *run) setPhase(p string) { r.phase.Store(p) }
 
 // emitProbe writes the Probe line and one Dirty line per differing component, contiguously.
-func (r *run) emitProbe(conn, obj int, dirty []string, recycled bool) {
+func (r *run) emitProbe(conn, obj int, dirty, dirty2 []string, setv string, recycled bool) {
 	r.emu.Lock()
 	if atomic.LoadInt32(&r.dead) != 0 {
 		r.emu.Unlock()
 		return
 	}
-	r.w.tr.Emit("Probe", vtrace.Rec{"conn": conn, "obj": obj, "dirty": dirty, "recycled": recycled})
+	all := append(append([]string{}, dirty...), dirty2...)
+	r.w.tr.Emit("Probe", vtrace.Rec{"conn": conn, "obj": obj, "dirty": all, "recycled": recycled, "setv": setv})
 	for _, c := range dirty {
-		r.w.tr.Emit("Dirty", vtrace.Rec{"conn": conn, "obj": obj, "comp": c})
+		r.w.tr.Emit("Dirty", vtrace.Rec{"conn": conn, "obj": obj, "comp": c, "phase": "look"})
+	}
+	for _, c := range dirty2 {
+		r.w.tr.Emit("Dirty", vtrace.Rec{"conn": conn, "obj": obj, "comp": c, "phase": "set:" + setv})
 	}
 	r.emu.Unlock()
 }
@@ -270,18 +301,16 @@ func (r *run) mutH(c context.Context, ctx *app.RequestContext) {
 
 func (r *run) probeH(c context.Context, ctx *app.RequestContext) {
 	if r.refMode != nil {
-		r.refMode.d = dumpCtx(ctx)
-		probeLocks(ctx)
+		r.refMode.d, r.refMode.d2 = lookTwice(c, ctx, r.refSetv, r.w.files)
 		ctx.SetBodyString("probe-ok")
 		return
 	}
 	st := r.enter(c, ctx)
 	r.setPhase("probe")
 	defer r.setPhase("")
-	d := dumpCtx(ctx)
-	probeLocks(ctx)
-	rf := r.w.reference(cfgKey{r.c.Trace, r.idle(), st.probe})
-	st.pending = &probeRec{obj: st.obj, dirty: diff(d, rf.d)}
+	d, d2 := lookTwice(c, ctx, st.setv, r.w.files)
+	rf := r.w.reference(cfgKey{r.c.Trace, r.idle(), st.probe, st.setv})
+	st.pending = &probeRec{obj: st.obj, dirty: diff(d, rf.d), dirty2: diff(d2, rf.d2)}
 	st.off = len(st.conn.Out)
 	ctx.SetBodyString("probe-ok")
 }
@@ -333,7 +362,7 @@ func (r *run) resolve(st *connState, ended bool) {
 		return
 	}
 	st.pending = nil
-	rf := r.w.reference(cfgKey{r.c.Trace, r.idle(), st.probe})
+	rf := r.w.reference(cfgKey{r.c.Trace, r.idle(), st.probe, st.setv})
 	w := "none"
 	if len(st.conn.Out) > st.off {
 		w = wireOf(st.conn.Out[st.off:])
@@ -349,15 +378,15 @@ func (r *run) resolve(st *connState, ended bool) {
 	if rec {
 		atomic.AddInt64(&r.w.stats.recycled, 1)
 	}
-	if len(p.dirty) > 0 {
+	if len(p.dirty)+len(p.dirty2) > 0 {
 		atomic.AddInt64(&r.w.stats.dirty, 1)
 	}
 	st.probed++
-	r.emitProbe(st.id, p.obj, p.dirty, rec)
+	r.emitProbe(st.id, p.obj, p.dirty, p.dirty2, st.setv, rec)
 }
 
 func (r *run) newConn(id int, in string, probe string) *connState {
-	st := &connState{id: id, probe: probe}
+	st := &connState{id: id, probe: probe, setv: r.c.Setv}
 	st.conn = vnet.New([]byte(in), nil)
 	st.conn.OnWrite = func([]byte) { r.resolve(st, false) }
 	return st
@@ -391,6 +420,7 @@ func (w *worker) reference(k cfgKey) *ref {
 		r := &run{w: w, c: &Case{Trace: k.trace}, objs: map[uintptr]int{}, mutated: map[int]bool{}}
 		rf := &ref{}
 		r.refMode = rf
+		r.refSetv = k.setv
 		e := r.engine(k.idle, k.trace)
 		conn := vnet.New([]byte(probeRequest(k.probe)), nil)
 		if k.idle == "poller" {
@@ -401,7 +431,7 @@ func (w *worker) reference(k cfgKey) *ref {
 		rf.wire = wireOf(conn.Out)
 		got[i] = rf
 	}
-	if d := diff(got[0].d, got[1].d); len(d) > 0 || got[0].wire != got[1].wire || got[0].d == nil {
+	if d := append(diff(got[0].d, got[1].d), diff(got[0].d2, got[1].d2)...); len(d) > 0 || got[0].wire != got[1].wire || got[0].d == nil {
 		fmt.Fprintf(os.Stderr, "c09: the reference dump is not reproducible (volatile components %v, wire %q vs %q)\n", d, got[0].wire, got[1].wire)
 		os.Exit(2)
 	}
@@ -499,8 +529,11 @@ func (r *run) ctxCase() {
 func (r *run) concCase() {
 	c := r.c
 	e := r.engine(c.Idle, c.Trace)
+	setvs := []string{"bytes", "string", "copy", "bytes!", "string!", "copy!"}
 	for _, pk := range []string{"min", "rich"} { // the references are computed before the goroutines start (the cache is not locked)
-		r.w.reference(cfgKey{c.Trace, c.Idle, pk})
+		for _, sv := range setvs {
+			r.w.reference(cfgKey{c.Trace, c.Idle, pk, sv})
+		}
 	}
 	shapes := []string{"get", "form", "multipart", "chunked"}
 	endings := []string{"return", "abort", "panic"}
@@ -520,6 +553,7 @@ func (r *run) concCase() {
 				pk := []string{"min", "rich"}[n%2]
 				in := mutRequest(shapes[n%4], "/mut/a/b") + probeRequest(pk) + mutRequest(shapes[(n+1)%4], "/mut/a/b") + probeRequest(pk)
 				st := r.newConn(g+1, in, pk)
+				st.setv = setvs[n%6]
 				st.muts = [][]string{pick(0), pick(1)}
 				st.endings = []string{endings[n%3], endings[(n+1)%3]}
 				cc := context.WithValue(context.Background(), connKey{}, st)
@@ -696,15 +730,29 @@ func (r *run) standaloneCase() {
 	p2, keep2 := o2.ptr()
 	id2 := r.objID(p2, keep2)
 	r.emit("Acquire", vtrace.Rec{"conn": 0, "obj": id2, "ptr": fmt.Sprintf("%p", p2)})
-	dirty := diff(o2.dump(), newStandalone(c.Kind, false).dump())
+	fresh := newStandalone(c.Kind, false)
+	dirty := []string{}
+	if !strings.HasSuffix(c.Setv, "!") {
+		dirty = diff(o2.dump(), fresh.dump())
+	}
+	var dirty2 []string
+	if c.Setv != "" {
+		after := func(o *standalone) dump {
+			pan := applyProgram(strings.TrimSuffix(c.Setv, "!"), c.Kind, o.env(r.w.files))
+			d := o.dump()
+			d.put("set.panic", pan)
+			return d
+		}
+		dirty2 = diff(after(o2), after(fresh))
+	}
 	atomic.AddInt64(&r.w.stats.probes, 1)
 	if r.mutated[id2] {
 		atomic.AddInt64(&r.w.stats.recycled, 1)
 	}
-	if len(dirty) > 0 {
+	if len(dirty)+len(dirty2) > 0 {
 		atomic.AddInt64(&r.w.stats.dirty, 1)
 	}
-	r.emitProbe(0, id2, dirty, r.mutated[id2])
+	r.emitProbe(0, id2, dirty, dirty2, c.Setv, r.mutated[id2])
 	// the probed object is dropped, not released: the process-wide pools stay empty between cases
 }
 
@@ -736,7 +784,7 @@ func main() {
 			sort.Strings(ks)
 			return ks
 		}
-		o["Ctx"] = append(keys(w.reference(cfgKey{true, "inloop", "rich"}).d), "wire")
+		o["Ctx"] = append(keys(w.reference(cfgKey{true, "inloop", "rich", ""}).d), "wire")
 		for _, k := range []string{"Request", "Response", "URI", "Cookie", "Args"} {
 			o[k] = keys(newStandalone(k, false).dump())
 		}
